@@ -139,3 +139,18 @@ package db
 //@ func (*LDBBucket).BucketNames
 //@   requires b.tx != nil
 //@   modifies elems(string)
+
+// a bucket handle is handed out only after its record was read in the same transaction / database
+//@ func (*LDBTransaction).TopLevelBucket
+//@   assert-at call Get record-looked-up-in-this-transaction: arg0 == tx.tr && len(arg1) == 4 + len(name) && arg1[0] == 98 && arg1[1] == 95 && arg1[2] == 49 && arg1[3] == 95 && (forall j int :: 0 <= j && j < len(name) ==> arg1[4 + j] == name[j])
+//@   ensures only-recorded-buckets: result != nil ==> lastresult("Get", 1) == nil
+//@   ensures bucket-of-this-transaction: result != nil ==> unbox("*LDBBucket", result).tx == tx && unbox("*LDBBucket", result).depth == 1 && unbox("*LDBBucket", result).path == concat(concat("1", "_"), name) && pathOK(unbox("*LDBBucket", result))
+//@ func (*LDBTransaction).FetchBucket
+//@   assert-at call Get record-looked-up-in-this-transaction: arg0 == tx.tr
+//@   ensures only-recorded-buckets: result != nil ==> lastresult("Get", 1) == nil
+//@ func (*LDBReadTransaction).TopLevelBucket
+//@   assert-at call Get record-looked-up-in-this-database: arg0 == tx.ldb && len(arg1) == 4 + len(name) && arg1[0] == 98 && arg1[1] == 95 && arg1[2] == 49 && arg1[3] == 95 && (forall j int :: 0 <= j && j < len(name) ==> arg1[4 + j] == name[j])
+//@   ensures only-recorded-buckets: result != nil ==> lastresult("Get", 1) == nil
+//@ func (*LDBReadTransaction).FetchBucket
+//@   assert-at call Get record-looked-up-in-this-database: arg0 == tx.ldb
+//@   ensures only-recorded-buckets: result != nil ==> lastresult("Get", 1) == nil
